@@ -94,7 +94,13 @@ def run_batch(check, tier, seed, runs, workers, wall, digests=False, scratch=Non
     for w, p in enumerate(procs):
         r, err = collect(p, wall + 420)
         if r is None:
-            herrs.append("worker %d: %s" % (w, err))
+            cur = ""
+            try:
+                with open(os.path.join(scratch, "w%d" % w, "current_run")) as f:
+                    cur = " (died in run index / seed: %s)" % f.read()
+            except OSError:
+                pass
+            herrs.append("worker %d%s: %s" % (w, cur, err))
             continue
         for e in r["harness_errors"]:
             herrs.append("worker %d run %s seed %s:\n%s" % (w, e["idx"], e["seed"], e["trace"]))
@@ -263,6 +269,20 @@ def cmd_check(check, tier, args):
             return 3
         if r["violation"] is not None and re.fullmatch(e["fingerprint"], r.get("fingerprint") or ""):
             known_hits[e["id"]] = known_hits.get(e["id"], 0) + 1
+    # 1b. regression corpus: the committed replays of REPAIRED findings must not violate any more (a fixed entry suppresses nothing)
+    reg = [e for e in findings if e["property"] == check and e.get("status") == "fixed" and e.get("replay") and os.path.exists(os.path.join(VERIF, e["replay"]))]
+    reg_jobs = []
+    for e in reg:
+        with open(os.path.join(VERIF, e["replay"])) as f:
+            hsd = json.load(f).get("pythonhashseed") or 0
+        reg_jobs.append(({"mode": "replay", "path": os.path.join(VERIF, e["replay"])}, hsd))
+    reg_viol = []
+    for e, (r, err) in zip(reg, parallel_jobs(reg_jobs, workers)):
+        if r is None:
+            print("HARNESS-ERROR replay of repaired finding %s failed: %s" % (e["id"], err))
+            return 3
+        if r["violation"] is not None and match_finding(findings, check, r.get("fingerprint")) is None:
+            reg_viol.append((e, r))
     agg, herrs = run_batch(check, tier, seed, runs, workers, wall)
     if herrs:
         for h in herrs[:5]:
@@ -322,10 +342,15 @@ def cmd_check(check, tier, args):
         print("  %s" % vj["message"])
         print("  fingerprint=%s" % r.get("fingerprint"))
         rc = 1
+    for e, r in reg_viol:
+        print("VIOLATION property=%s replay=%s" % (check, os.path.join(VERIF, e["replay"])))
+        print("  the history of repaired finding %s violates again: %s" % (e["id"], r["violation"]["message"]))
+        print("  fingerprint=%s" % r.get("fingerprint"))
+        rc = 1
     wall_total = time.time() - t0
     extra = {"violating_runs_in_batch": len(agg["violations"]) + agg["violations_dropped"], "violations_minimised": n_shrunk,
-             "known_finding_hits": known_hits}
-    write_evidence(check, tier, seed, cfg, agg, len(new_viol), extra_cov=extra, wall=wall_total)
+             "known_finding_hits": known_hits, "regression_replays_of_repaired_findings": len(reg), "regression_replays_violating": len(reg_viol)}
+    write_evidence(check, tier, seed, cfg, agg, len(new_viol) + len(reg_viol), extra_cov=extra, wall=wall_total)
     print("runs=%d nontrivial-distinct=%d states=%d ops=%d wall=%.1fs (%.0f runs/h) violating-runs=%d new=%d known=%s truncated=%s" % (
         agg["n"], agg["distinct_nontrivial"], agg["states"], agg["n_ops"], wall_total, agg["n"] / max(wall_total, 1e-9) * 3600,
         len(agg["violations"]) + agg["violations_dropped"], len(new_viol), dict(known_hits), agg["truncated"]))
